@@ -1,9 +1,5 @@
 """C12 - dump/load round-trips (pickle, JSON, manager) restore the same
 functions."""
-import os
-import shutil
-import tempfile
-
 from .. import gen, oracle, tt as T
 from .base import Mgr, replay  # noqa: F401
 from ..impl import vname
@@ -13,9 +9,8 @@ RULE = ('tuples of functions by truth table (<=4 variables) x roots as list/dict
         'true/false x (JSON: load_order true/false); constants among the roots included; a case '
         'is that tuple; non-trivial = some root non-constant')
 EXHAUSTIVE = {'quick': False, 'thorough': False}
-ASSUMES = ['pickle/json/shelve are faithful containers',
-           'JSON round-trips are checked by the semantic oracle on the implementation only '
-           '(no JSON model yet)']
+ASSUMES = ['pickle/json/shelve are faithful containers: the model works on the parsed contents '
+           '(the JSON text is re-written by the harness in the format dd._copy writes)']
 
 
 def by_name(b, u, n):
@@ -122,64 +117,92 @@ def manager_case(ctx, n, order, tts):
         s.op(1, 'decref', u)
 
 
+def abuild(s, A, t, n):
+    """handle of the function with truth table t (by variable ids 0..n-1) in autoref manager A"""
+    def cube(k):
+        return s.op(A, 'cube', {j: bool(T.getbit(k, j, n)) for j in range(n)})
+    f = s.op(A, 'false')
+    for k in range(1 << n):
+        if (t >> k) & 1:
+            c = cube(k)
+            g = s.op(A, 'apply', 'or', f, c, None)
+            s.op(A, 'drop', f)
+            s.op(A, 'drop', c)
+            f = g
+    return f
+
+
 def json_case(ctx, n, order, tts, kind, receiver, load_order):
-    """implementation only (semantic oracle)"""
-    import dd.autoref as A
-    d = tempfile.mkdtemp(prefix='ddverif')
-    cwd = os.getcwd()
-    os.chdir(d)          # dd._copy creates a shelve directory in the cwd
-    try:
-        a = A.BDD({vname(v): l for v, l in zip(range(n), order)})
-        fs = []
-        for t in tts:
-            f = a.false
-            for k in range(1 << n):
-                if (t >> k) & 1:
-                    f = f | a.cube({vname(j): bool(T.getbit(k, j, n)) for j in range(n)})
-            fs.append(f if ctx.rng.random() < 0.5 else ~f)
-            del f
-        exp = [by_name(a._bdd, f.node, n) for f in fs]
-        roots = list(fs) if kind == 'list' else {f'r{i}': f for i, f in enumerate(fs)}
-        fn = os.path.join(d, 'x.json')
-        case = dict(n=n, order=list(order), tts=[hex(t) for t in exp], roots=kind,
-                    receiver=receiver, load_order=load_order)
-        ctx.case(('json', n, tuple(order), tuple(exp), kind, receiver, load_order), True)
-        ctx.count(f'json:{receiver}:{load_order}')
-        try:
-            a.dump(fn, roots)
-            if receiver == 'fresh':
-                r = A.BDD()
-            elif receiver == 'same':
-                r = a
-            elif receiver == 'declared-same':
-                r = A.BDD({vname(v): l for v, l in zip(range(n), order)})
-            else:
-                r = A.BDD({vname(v): l for v, l in zip(range(n), reversed(order))})
-            import dd._copy as C
-            got = C.load_json(fn, r, load_order=load_order)
-            gl = list(got.values()) if kind == 'dict' else list(got)
-            if kind == 'dict' and list(got) != list(roots):
-                ctx.violation('C12:json-roots', 'root names changed', case)
-            for g, t in zip(gl, exp):
-                if by_name(r._bdd, g.node, n) != t:
-                    ctx.violation('C12:json-wrong-function', f'JSON round trip changed {t:#x}', case)
-                    break
-            ext = {1: 1}
-            import gc
-            live = [g for g in gl] + ([f for f in fs] if r is a else [])
-            for g in live:
-                ext[abs(g.node)] = ext.get(abs(g.node), 0) + 1
-            bad = oracle.check_table(r._bdd, external=ext)
-            if bad:
-                ctx.violation('C12:json-receiver', f'receiver counts/table after JSON load: {bad[:2]}', case)
-            del got, gl, live
-        except Exception as e:  # noqa: B902
-            ctx.violation('C12:json-failed', f'JSON round trip raised {type(e).__name__}: {e}', case)
-        finally:
-            fs = roots = None
-    finally:
-        os.chdir(cwd)
-        shutil.rmtree(d, ignore_errors=True)
+    """dd.autoref dump/load of JSON: the implementation and the model run the
+    same lines; the file contents travel as the dump's result and the load's
+    arguments"""
+    from ..impl import JNodes
+    s = ctx.session(f'json n={n} order={order} roots={kind} recv={receiver} load_order={load_order}')
+    A = 'a0'
+    s.op(A, 'new', {v: l for v, l in zip(range(n), order)})
+    hs = []
+    for t in tts:
+        f = abuild(s, A, t, n)
+        if ctx.rng.random() < 0.5:
+            g = s.op(A, 'fapply', 'not', f, None)
+            s.op(A, 'drop', f)
+            f = g
+        hs.append(f)
+    a = s.impl.amgr[A]
+    H = s.impl.handles
+    exp = [by_name(a._bdd, H[A][h].node, n) for h in hs]
+    roots = list(hs) if kind == 'list' else {10 + i: h for i, h in enumerate(hs)}
+    case = lambda: dict(stream=s.label, lines=list(s.lines))  # noqa: E731
+    ctx.case(('json', n, tuple(order), tuple(exp), kind, receiver, load_order), True)
+    ctx.count(f'json:{receiver}:{load_order}')
+    d = s.op(A, 'json_dump', roots)
+    if d is None:
+        ctx.violation('C12:json-failed', 'JSON dump was rejected', case)
+        return
+    lv, rt, ns = d
+    if receiver == 'fresh':
+        R = 'a1'
+        s.op(R, 'new', {})
+    elif receiver == 'same':
+        R = A
+    elif receiver == 'declared-same':
+        R = 'a1'
+        s.op(R, 'new', {v: l for v, l in zip(range(n), order)})
+    else:
+        R = 'a1'
+        s.op(R, 'new', {v: l for v, l in zip(range(n), reversed(order))})
+    if R != A and ctx.rng.random() < 0.3:
+        # the receiver is in use: other functions and handles
+        for _ in range(2):
+            abuild(s, R, ctx.rng.getrandbits(1 << n), n) if s.impl.amgr[R].vars else None
+    got = s.op(R, 'json_load', {v: l for v, l in lv},
+               {k: u for k, u in rt} if kind == 'dict' else rt,
+               JNodes(tuple(x) for x in ns), load_order)
+    if got is None:
+        ctx.violation('C12:json-failed', f'JSON load was rejected ({s.last_result()})', case)
+        return
+    gl = [h for _, h in got] if kind == 'dict' else list(got)
+    if kind == 'dict' and [k for k, _ in got] != list(roots):
+        ctx.violation('C12:json-roots', 'root names changed', case)
+    r = s.impl.amgr[R]
+    for h, t in zip(gl, exp):
+        if by_name(r._bdd, H[R][h].node, n) != t:
+            ctx.violation('C12:json-wrong-function', f'JSON round trip changed {t:#x}', case)
+            break
+    if load_order and R != A:
+        want = {vname(v): l for v, l in zip(range(n), order)}
+        if any(r.vars.get(x) != l for x, l in want.items()) and receiver == 'fresh':
+            ctx.violation('C12:json-order', 'load_order=True did not restore the dumped order', case)
+    ext = {1: 1}
+    for u in [abs(f.node) for f in H[R].values()]:
+        ext[u] = ext.get(u, 0) + 1
+    bad = oracle.check_table(r._bdd, external=ext)
+    if bad:
+        ctx.violation('C12:json-receiver', f'receiver counts/table after JSON load: {bad[:2]}', case)
+    # the loaded functions stay usable and are released like any other
+    for h in gl:
+        s.op(R, 'drop', h)
+    s.op(R, 'gc')
 
 
 def run(ctx):
